@@ -184,6 +184,7 @@ structure StepRec where
   vsnap : List Oid := []        -- ids whose object is virtual (virtualp) at the snapshot
   vb : Option (Oid × Oid × Ans) := none    -- master::valid_bind was asked (doer = old owner, new owner, verdict)
   bindTo : Option Oid := none   -- this segment starts a bind(): the function will run as that object
+  fpOwner : Option Oid := none  -- this segment ends a via / bind op: its result is geteuid(function) of a function owned by that object
   deriving Repr, BEq, DecidableEq
 
 /-! registry: association list keyed by `oid` -/
@@ -545,6 +546,14 @@ def reloadRefused (pol : Policy) (i : Nat) (w : World) (t : Oid) : Bool :=
   | some T => !(pol.script i (scriptKey (w.nameOf T))).isEmpty
   | none => false
 
+/-- geteuid(function): the euid of the function's owner, as the harness prints it -/
+def fpEuid (S : List Obj) (t : Oid) : Res :=
+  match getO S t with
+  | some T' => (match T'.euid with
+    | some n => .oid ("s:" ++ n)
+    | none => .int 0)
+  | none => .int 0
+
 /-- efun pointers the harness binds: load_object / clone_object -/
 def bindable : Op → Bool
   | .load _ => true
@@ -575,12 +584,8 @@ def execWith (cfg : Cfg) (pol : Policy) (i : Nat) (run : Run) (sub : Sub) (neste
       | none => (w, [seg w a op none [] (some .nobj) true])
       | some _ =>
         let y := run w t op'
-        let res : Res := match getO y.1.objs t with
-          | some T' => (match T'.euid with
-            | some n => .oid ("s:" ++ n)
-            | none => .int 0)
-          | none => .int 0
-        (y.1, seg w a op none [] none true :: y.2 ++ [seg y.1 a op none [] (some res) false])
+        (y.1, seg w a op none [] none true :: y.2 ++
+          [{ seg y.1 a op none [] (some (fpEuid y.1.objs t)) false with fpOwner := some t }])
     | .bind t op' =>
       -- lib/lpc/operator.c f_bind: same owner = nothing to do (the master is not asked); otherwise master
       -- valid_bind(doer, old owner, new owner) through the NON-catching apply, refusal iff !MASTER_APPROVED = error;
@@ -601,13 +606,8 @@ def execWith (cfg : Cfg) (pol : Policy) (i : Nat) (run : Run) (sub : Sub) (neste
             (w, [{ seg w a op none [] (some (.err .bindDenied)) true with vb := asked, bindTo := none }])
           else
             let y := run w t op'
-            let res : Res := match getO y.1.objs t with
-              | some T' => (match T'.euid with
-                | some n => .oid ("s:" ++ n)
-                | none => .int 0)
-              | none => .int 0
             (y.1, { seg w a op none [] none true with vb := asked, bindTo := some t } :: y.2 ++
-              [seg y.1 a op none [] (some res) false])
+              [{ seg y.1 a op none [] (some (fpEuid y.1.objs t)) false with fpOwner := some t }])
 
 def runScript (f : Run) (w : World) (o : Oid) : List Op → World × List StepRec
   | [] => (w, [])
